@@ -14,6 +14,7 @@
 //@hdrsubst cppManifest.h "from=ExpansionNode\(std::vector<ExpansionNode> nested[^;]*;" to=
 // default arguments that are class temporaries crash the front end (declaration of CPPManifest::expand, not a kernel)
 //@hdrsubst cpp*.h "from= = (vector_string|Ignores|CPPManifest::Ignores|YYSTYPE)\(\)" to=
+//@hdrinsert cppPreprocessor.h after="void error(const std::string &message, const YYLTYPE &loc) const;" text="void error__body(const std::string &message, const YYLTYPE &loc) const;"
 //@bison src/cppparser/cppBison.yxx cppBison.h
 #include "dtoolbase.h"
 #include "cppPreprocessor.h"
@@ -47,6 +48,11 @@ bool CPPPreprocessor::is_manifest_defined(const std::string &manifest_name) cons
 //@extract src/cppparser/cppPreprocessor.cxx CPPPreprocessor::scan_raw
 //@extract src/cppparser/cppPreprocessor.cxx CPPPreprocessor::skip_digit_separator
 //@extract src/cppparser/cppPreprocessor.cxx CPPPreprocessor::expand_defined_function
+std::ostream &indent(std::ostream &out, int indent_level) { return out; }
+int CPPPreprocessor::get_file_depth() const { return 0; }
+void CPPPreprocessor::show_line(const YYLTYPE &loc) const {}
+bool CPPFile::empty() const { return _filename.empty(); }
+//@extract src/cppparser/cppPreprocessor.cxx CPPPreprocessor::error ordinal=1 rename=__body "elide1=    show_line\(loc\);.*?(?=    if \(_error_abort\))"
 
 static CPPPreprocessor *make_pp() { CPPPreprocessor *pp = VU_NEW(CPPPreprocessor); pp->_unget = '\0'; return pp; }
 static void make_input() {
@@ -130,5 +136,20 @@ void h_expand_defined_function() {
   OBL(p == vin_q + 1 && vin_expr._n >= vin_q + 1 && vin_expr._d[vin_q] == (g_defined_answer ? '1' : '0'), "C09.expand_defined_function: defined X is replaced by 1 or 0 according to whether X is defined");
   OBL(vin_expr.substr(0, vin_q) == before, "C09.expand_defined_function: the text in front of the operator is kept");
   OBL(vin_expr.substr(vin_q + 1) == rest, "C09.expand_defined_function: exactly the operand (identifier, or parenthesised identifier) is consumed; the rest of the expression, including a closing parenthesis that belongs to an enclosing group, is kept");
+  VU_REACHED();
+}
+
+// ---- error(): every error reported outside a nested template-argument parse is counted (the count drives the exit status)
+extern "C" void abort(void) { __CPROVER_assume(false); }      // -error-abort: the run ends at once with a signal-free abort message (not the subject here)
+void h_error_is_counted() {
+  CPPPreprocessor *pp = make_pp();
+  int vin_state = nondet_int(); __CPROVER_assume(vin_state >= CPPPreprocessor::S_normal && vin_state <= CPPPreprocessor::S_end_nested);
+  pp->_state = (CPPPreprocessor::State)vin_state; pp->_verbose = nondet_int(); pp->_error_abort = false; pp->_infile = 0;
+  int before = nondet_int(); __CPROVER_assume(before >= 0 && before < 1000000); pp->_error_count = before;
+  YYLTYPE loc; loc.first_line = nondet_int(); loc.first_column = nondet_int(); loc.file._filename._filename._n = 0; loc.file._filename._filename._trunc = false;
+  std::string msg("m");
+  pp->error__body(msg, loc);
+  bool nested = vin_state == CPPPreprocessor::S_nested || vin_state == CPPPreprocessor::S_end_nested;
+  OBL(pp->_error_count == (nested ? before : before + 1), "C15.error: an error reported in the normal or end-of-file state is counted (so the run exits non-zero); only errors inside a nested trial parse are deferred");
   VU_REACHED();
 }
